@@ -602,6 +602,7 @@ class Track:
 
     def __init__(self):
         self.tainted, self.abnormal = False, False
+        self.called = False      # the object has answered a call before (state may live outside the observable caches)
         self.degraded, self.root_degraded = set(), False   # memo names of the live strategy object filled by a degrading call
 
 
@@ -609,7 +610,8 @@ def run_history(kind, tokens, seed, compare_all=False):
     """Run one history on a real model.  -> list of per-op records (JSON-able).
 
     A call is compared with a freshly constructed model unless (i) the history model is itself in the freshly
-    constructed state (no live cache entry anywhere, nothing rejected / raised so far), (ii) it is an
+    constructed state (no live cache entry anywhere, nothing rejected / raised so far, and it has not answered any
+    call yet — a cache kept outside the observable tables would otherwise escape), (ii) it is an
     accuracy-degrading call (Q1 / Q2), or (iii) it is an exact-path call that by the model's read set reads a cache
     entry which an accuracy-degrading call legitimately created (`covar_cache` holding a truncated root is read only
     under fast_pred_var; a `mean_cache` from a two-iteration CG is read by every posterior call).
@@ -660,7 +662,7 @@ def run_history(kind, tokens, seed, compare_all=False):
             reads = reads_of(ps_after, r["cell"], r["prior"]) if not was_training else set()
             if reads & tr.degraded:
                 rec["skipped_reads_degraded"] = sorted(reads & tr.degraded)
-            elif compare_all or tr.abnormal or not before_empty:
+            elif compare_all or tr.abnormal or not before_empty or tr.called:
                 try:
                     fm, fc = w.fresh(r["cell"], r["prior"], was_training)
                     rec["diff"] = max(reldiff(r["pred"][0], fm), reldiff(r["pred"][1], fc))
@@ -683,6 +685,8 @@ def run_history(kind, tokens, seed, compare_all=False):
                 tr.root_degraded = tr.root_degraded or ps_after == "DefaultPredictionStrategy"
             if "mean_cache" in created and r["cell"] == Q2 and is_taint:
                 tr.degraded.add("mean_cache")
+        if op[0] in "PQRB" and r["status"] == "ok":
+            tr.called = True
         if r["status"] not in ("ok", "excluded", "na") or r["token"] == "Lo":
             tr.abnormal = True     # (an old-format load leaves no cache but is not the freshly constructed state)
         if uses_cg and r["status"] == "ok" and not was_training:
